@@ -40,3 +40,9 @@ def extra_coverage(agg):
             "evaluations": int(scen + sum(pts.values())),  # golden runs + one re-execution per fault point + one reopen per truncation
             "survivors_read_back": p.get("survivor-read-back", 0),
             "distinct_nontrivial_note": "counted conservatively as distinct scenario digests; each scenario contributes its whole enumerated set of fault points"}
+
+# dimensions added in seeded round 9
+PROBES = list(PROBES) + ["E1:descriptor-exhaustion-raised", "E1:call-succeeded"]
+RULE = RULE + (" Round 9: fault kind E1 - for m in {0,1,2,n_out/2+1,n_out,n_out+1,n_out+3} the soft RLIMIT_NOFILE is set to (open descriptors + m) for the duration of the call: a REAL "
+               "EMFILE; the call must raise (survivors are valid prefixes) or return with every golden file complete.")
+COMPONENTS = {**COMPONENTS, "simulated": list(COMPONENTS["simulated"]) + ["descriptor exhaustion: the soft RLIMIT_NOFILE of the worker process is lowered around the call (the EMFILE itself is the kernel's)"]}
